@@ -40,7 +40,8 @@ func init() { register("erc20", erc20Driver) }
 // ---------------------------------------------------------------- actors
 // 0 erc20 module account   1..3 holders (with keys)   4 the "thief" hard-wired in
 // the malicious Solidity tokens   5 the zero address   6 deployer / minter of the
-// external tokens
+// external tokens   7 the script contract (asm.go): a contract that holds tokens
+// and makes a list of calls in one transaction
 const (
 	pM = iota
 	pH1
@@ -49,6 +50,7 @@ const (
 	pThief
 	pZero
 	pDeployer
+	pScript
 	pegNA
 )
 
@@ -72,6 +74,7 @@ func init() {
 	}
 	pegAddr[pThief] = common.HexToAddress("0x4dC6ac40Af078661fc43823086E1513635Eeab14")
 	pegAddr[pZero] = common.Address{}
+	pegAddr[pScript] = common.HexToAddress("0x5C81B70000000000000000000000000000000007")
 }
 
 func pegAcc(a int) sdk.AccAddress { return sdk.AccAddress(pegAddr[a].Bytes()) }
@@ -236,6 +239,11 @@ type pegEnv struct {
 
 var pegBase *pegEnv
 
+const pegByScript = 600 // tokens of each bystander pair held by the script contract in the base state
+
+// the bystander pairs a script transaction can also call: selector -> name
+var pegByNames = []string{"by-coin", "by-ext"}
+
 const (
 	pegSrcChannel = "channel-292"
 	pegDstChannel = "channel-0"
@@ -315,6 +323,8 @@ func pegBaseEnv() *pegEnv {
 			panic(err)
 		}
 	}
+	// the script contract: whoever sends it a transaction makes it execute the calls in the calldata
+	e.install(pegAddr[pScript], scriptCode)
 	// coin-origin pairs: the module deploys its own ERC20MinterBurnerDecimals
 	e.pairs["coin"] = e.registerCoin("coin", pegVoucher("uatom"), "atom")
 	e.pairs["by-coin"] = e.registerCoin("by-coin", pegVoucher("uosmo"), "osmo")
@@ -352,6 +362,11 @@ func pegBaseEnv() *pegEnv {
 		panic(err)
 	}
 	if _, err := e.runMsg(types.NewMsgConvertCoin(sdk.NewInt64Coin(cp.Denom, 4000), pegAddr[pH2], pegAcc(pH1))); err != nil {
+		panic(err)
+	}
+	// the script contract holds tokens of both bystander pairs: a transaction can touch two pairs
+	e.mustEth(pDeployer, hp.Contract, e.pack("mint", pegAddr[pScript], big.NewInt(pegByScript)))
+	if _, err := e.runMsg(types.NewMsgConvertCoin(sdk.NewInt64Coin(cp.Denom, pegByScript), pegAddr[pScript], pegAcc(pH1))); err != nil {
 		panic(err)
 	}
 	pegBase = e
@@ -410,7 +425,7 @@ func (e *pegEnv) mustEth(from int, to common.Address, data []byte) {
 
 // ---------------------------------------------------------------- input
 type pegOp struct {
-	Op   string `json:"op"`             // fund rawsend cc ce eth send toggle params recv ack timeout ibcsend
+	Op   string `json:"op"`             // fund rawsend cc ce eth send toggle params recv ack timeout ibcsend batch
 	A    int    `json:"a,omitempty"`    // sender / caller / escrow holder
 	B    int    `json:"b,omitempty"`    // receiver
 	X    string `json:"x,omitempty"`    // amount
@@ -420,6 +435,16 @@ type pegOp struct {
 	S    bool   `json:"s,omitempty"`    // ack: acknowledgement is a success; recv: packet sender is a module account
 	E    bool   `json:"e,omitempty"`    // params: EnableErc20
 	H    bool   `json:"h,omitempty"`    // params: EnableEVMHook
+	// batch: ONE Ethereum transaction signed by A to the script contract, which makes these calls in order
+	Calls []pegCall `json:"calls,omitempty"`
+}
+
+// pegCall: one CALL of the script contract: token.transfer(to, x).
+type pegCall struct {
+	T     int    `json:"t,omitempty"`     // 0 the pair's own token; 1 / 2 the token of the bystander pair by-coin / by-ext (always to the module, always tolerated)
+	To    int    `json:"to,omitempty"`    // recipient (0 = the erc20 module address)
+	X     string `json:"x,omitempty"`     // amount
+	Catch bool   `json:"catch,omitempty"` // a reverting call is tolerated; otherwise the whole transaction reverts
 }
 
 type pegInput struct {
@@ -438,6 +463,61 @@ type pegSnap struct {
 	Total      *big.Int        // nil = totalSupply did not answer
 	IsContract bool
 	Others     string // digest of everything that must not move: bystander pairs, the base denom
+	idxNote    string
+	By         [2]pegBy // the bystander pairs by-coin, by-ext
+	Base       string   // balances in the base denomination
+}
+
+// pegBy: the observable state of a bystander pair
+type pegBy struct {
+	Supply, Total *big.Int
+	Coin, Tok     [pegNA]*big.Int
+}
+
+func (b *pegBy) clone() pegBy {
+	cp := func(x *big.Int) *big.Int {
+		if x == nil {
+			return nil
+		}
+		return new(big.Int).Set(x)
+	}
+	c := pegBy{Supply: cp(b.Supply), Total: cp(b.Total)}
+	for a := 0; a < pegNA; a++ {
+		c.Coin[a], c.Tok[a] = cp(b.Coin[a]), cp(b.Tok[a])
+	}
+	return c
+}
+
+// diff: the first observable in which the pair's state `got` differs from what the property demands (`b`)
+func (b *pegBy) diff(got *pegBy) string {
+	switch {
+	case !bigEq(b.Supply, got.Supply):
+		return fmt.Sprintf("coin supply is %v, the property demands %v", got.Supply, b.Supply)
+	case !bigEq(b.Total, got.Total):
+		return fmt.Sprintf("token totalSupply is %v, the property demands %v", got.Total, b.Total)
+	}
+	for a := 0; a < pegNA; a++ {
+		if !bigEq(b.Coin[a], got.Coin[a]) {
+			return fmt.Sprintf("coin balance of actor %d is %v, the property demands %v", a, got.Coin[a], b.Coin[a])
+		}
+		if !bigEq(b.Tok[a], got.Tok[a]) {
+			return fmt.Sprintf("token balance of actor %d is %v, the property demands %v", a, got.Tok[a], b.Tok[a])
+		}
+	}
+	return ""
+}
+
+func pegOthers(note string, by *[2]pegBy, base string) string {
+	parts := []string{}
+	for i, name := range pegByNames {
+		q := &by[i]
+		parts = append(parts, fmt.Sprintf("%s:supply=%s,total=%v", name, q.Supply, q.Total))
+		for a := 0; a < pegNA; a++ {
+			parts = append(parts, fmt.Sprintf("%s/%v", q.Coin[a], q.Tok[a]))
+		}
+	}
+	parts = append(parts, base)
+	return note + strings.Join(parts, " ")
 }
 
 func (e *pegEnv) callView(c common.Address, method string, args ...interface{}) *big.Int {
@@ -469,7 +549,7 @@ func (e *pegEnv) snapshot(p *pegPair) pegSnap {
 	}
 	// the three indexes must agree
 	if s.Reg != ek.IsERC20Registered(e.Ctx, p.Contract) || s.Reg != ek.IsDenomRegistered(e.Ctx, p.Denom) {
-		s.Others = "pair indexes disagree;"
+		s.idxNote = "pair indexes disagree;"
 	}
 	for a := 0; a < pegNA; a++ {
 		s.Coin[a] = e.App.BankKeeper.GetBalance(e.Ctx, pegAcc(a), p.Denom).Amount.BigInt()
@@ -480,18 +560,22 @@ func (e *pegEnv) snapshot(p *pegPair) pegSnap {
 	acc := e.App.EvmKeeper.GetAccountWithoutBalance(e.Ctx, p.Contract)
 	s.IsContract = acc != nil && acc.IsContract()
 	// frame
-	parts := []string{}
-	for _, name := range []string{"by-coin", "by-ext"} {
+	for i, name := range pegByNames {
 		q := e.pairs[name]
-		parts = append(parts, fmt.Sprintf("%s:supply=%s,total=%v", name, e.App.BankKeeper.GetSupply(e.Ctx, q.Denom).Amount, e.callView(q.Contract, "totalSupply")))
+		b := &s.By[i]
+		b.Supply = e.App.BankKeeper.GetSupply(e.Ctx, q.Denom).Amount.BigInt()
+		b.Total = e.callView(q.Contract, "totalSupply")
 		for a := 0; a < pegNA; a++ {
-			parts = append(parts, fmt.Sprintf("%s/%v", e.App.BankKeeper.GetBalance(e.Ctx, pegAcc(a), q.Denom).Amount, e.callView(q.Contract, "balanceOf", pegAddr[a])))
+			b.Coin[a] = e.App.BankKeeper.GetBalance(e.Ctx, pegAcc(a), q.Denom).Amount.BigInt()
+			b.Tok[a] = e.callView(q.Contract, "balanceOf", pegAddr[a])
 		}
 	}
+	parts := []string{}
 	for a := 0; a < pegNA; a++ {
 		parts = append(parts, e.App.BankKeeper.GetBalance(e.Ctx, pegAcc(a), "aISLM").Amount.String())
 	}
-	s.Others += strings.Join(parts, " ")
+	s.Base = strings.Join(parts, " ")
+	s.Others = pegOthers(s.idxNote, &s.By, s.Base)
 	return s
 }
 
@@ -664,6 +748,35 @@ func (e *pegEnv) apply(p *pegPair, op pegOp) (int, string) {
 			return 9, s
 		}
 		return 5, s
+	case "batch":
+		// one signed transaction to the script contract, whose calldata makes it CALL
+		// token.transfer(to, x) once per entry: the receipt carries the logs of all the calls
+		if _, has := pegKeys[op.A]; !has {
+			return 3, "no key for this actor"
+		}
+		var script []byte
+		for _, c := range op.Calls {
+			cx := pegAmt(c.X)
+			if cx.Sign() < 0 || cx.Cmp(maxU256) > 0 || c.To < 0 || c.To >= pegNA || c.T < 0 || c.T > len(pegByNames) {
+				return 9, "call outside uint256 / the actors"
+			}
+			target, to, flags := p.Contract, pegAddr[c.To], byte(0)
+			if c.T > 0 {
+				target, to, flags = e.pairs[pegByNames[c.T-1]].Contract, pegAddr[pM], 1
+			}
+			if c.Catch {
+				flags = 1
+			}
+			script = append(script, encCall(flags, target.Bytes(), big.NewInt(0), e.pack("transfer", to, cx))...)
+		}
+		ok, s := e.ethTx(op.A, pegAddr[pScript], script)
+		if ok {
+			return 0, ""
+		}
+		if strings.HasPrefix(s, "panic") || strings.HasPrefix(s, "error") {
+			return 9, s
+		}
+		return 5, s
 	case "recv":
 		// IBC core runs the callback on a cache that is written only for a successful acknowledgement
 		rawDenom := "uatom"
@@ -784,6 +897,16 @@ func (op pegOp) coq() string {
 			c = "UOther"
 		}
 		return fmt.Sprintf("(Eth %d%%N %s)", op.A, c)
+	case "batch":
+		cs := []string{}
+		for _, c := range op.Calls {
+			if c.T > 0 {
+				cs = append(cs, fmt.Sprintf("BForeign %d%%N %s", c.T, coqZ(pegAmt(c.X))))
+			} else {
+				cs = append(cs, fmt.Sprintf("BXfer %d%%N %s %s", c.To, coqZ(pegAmt(c.X)), coqBool(c.Catch)))
+			}
+		}
+		return fmt.Sprintf("(Batch %d%%N %s)", op.A, coqList(cs))
 	case "recv":
 		return fmt.Sprintf("(Recv %s %s %d%%N %d%%N %s)", coqBool(op.F), coqBool(op.S), op.A, op.B, x)
 	case "ack":
@@ -858,7 +981,7 @@ func (t *pegTrack) honestNow(kind string) bool {
 	return t.honestKind || (kind == "cham" && t.mode == chHonest && !t.inflated && !t.killed)
 }
 
-func addTo(x **big.Int, d *big.Int) { *x = new(big.Int).Add(*x, d) }
+func addTo(x **big.Int, d *big.Int)   { *x = new(big.Int).Add(*x, d) }
 func subFrom(x **big.Int, d *big.Int) { *x = new(big.Int).Sub(*x, d) }
 
 // pegOracle: what property C10 demands of one step, computed from the
@@ -867,8 +990,21 @@ func subFrom(x **big.Int, d *big.Int) { *x = new(big.Int).Sub(*x, d) }
 func pegOracle(p *pegPair, op pegOp, res int, pre, post *pegSnap, tr *pegTrack) string {
 	x := pegAmt(op.X)
 	honest := tr.honestNow(p.Kind)
-	if post.Others != pre.Others {
-		return "frame: another pair or denomination changed: " + pre.Others + " -> " + post.Others
+	// frame: nothing but the pair under test moves; a successful script transaction may also have
+	// called the tokens of the bystander pairs: what the property demands of those is computed below
+	expOthers := pre.Others
+	if op.Op == "batch" && res == 0 {
+		expBy := pegForeignEffect(pre, op)
+		expOthers = pegOthers(pre.idxNote, expBy, pre.Base)
+		for i, name := range pegByNames {
+			if d := expBy[i].diff(&post.By[i]); d != "" {
+				return fmt.Sprintf("the same transaction also called the token of the pair %s (the contract held %v of its tokens, hook on: %v): %s",
+					name, pre.By[i].Tok[pScript], pre.Erc20On && pre.HookOn, d)
+			}
+		}
+	}
+	if post.Others != expOthers {
+		return "frame: another pair or denomination changed: " + pre.Others + " -> " + post.Others + ", the property demands " + expOthers
 	}
 	// (A) a failed operation has no effect at all (bank side in particular)
 	if res != 0 {
@@ -1008,6 +1144,37 @@ func pegOracle(p *pegPair, op pegOp, res int, pre, post *pegSnap, tr *pegTrack) 
 				coinToTok(op.B, op.B, x)
 			}
 		}
+	case "batch":
+		// every transfer of the contract's own tokens to the module address is a conversion request of
+		// the contract for exactly that transfer's amount: in total the contract receives the sum of
+		// the amounts it transferred, whatever else happens in the same transaction
+		hook := conv && pre.HookOn
+		if !honest {
+			tokKnown = false
+			break
+		}
+		for _, c := range op.Calls {
+			if c.T != 0 {
+				continue
+			}
+			cx := pegAmt(c.X)
+			if c.Catch && ((c.To == pZero && tr.honestKind) || exp.Tok[pScript].Cmp(cx) < 0) {
+				continue // this transfer reverts (more than the contract holds; OpenZeppelin: to the zero address); the contract tolerates it
+			}
+			tokAdd(pScript, neg(cx))
+			if c.To == pM && hook && cx.Sign() > 0 {
+				addTo(&exp.Coin[pScript], cx)
+				if p.OwnerMod { // the tokens are burned, escrowed coins are released
+					subFrom(&exp.Coin[pM], cx)
+					totAdd(neg(cx))
+				} else { // the tokens stay with the module, coins are minted
+					addTo(&exp.Supply, cx)
+					tokAdd(pM, cx)
+				}
+			} else {
+				tokAdd(c.To, cx)
+			}
+		}
 	case "eth":
 		hook := conv && pre.HookOn
 		switch op.Call {
@@ -1058,7 +1225,7 @@ func pegOracle(p *pegPair, op pegOp, res int, pre, post *pegSnap, tr *pegTrack) 
 		return fmt.Sprintf("%s: registry/params are reg=%v en=%v on=%v hook=%v, the property demands reg=%v en=%v on=%v hook=%v", op.Op,
 			post.Reg, post.En, post.Erc20On, post.HookOn, exp.Reg, exp.En, exp.Erc20On, exp.HookOn)
 	}
-	bankKnown := tokKnown || op.Op != "eth"
+	bankKnown := tokKnown || (op.Op != "eth" && op.Op != "batch")
 	if bankKnown {
 		if !bigEq(exp.Supply, post.Supply) {
 			return fmt.Sprintf("%s: coin supply is %s, the property demands %s", op.Op, post.Supply, exp.Supply)
@@ -1110,9 +1277,54 @@ func pegOracle(p *pegPair, op pegOp, res int, pre, post *pegSnap, tr *pegTrack) 
 	return ""
 }
 
+// pegForeignEffect: what a successful script transaction does to the bystander pairs (both always
+// registered and enabled, both honest OpenZeppelin tokens): each tolerated transfer(module, x) that the
+// contract can afford moves x tokens to the module and, when the hook is on, converts exactly x:
+// by-coin (coin-origin): x tokens burned, x escrowed coins to the contract; by-ext: x coins minted to it.
+func pegForeignEffect(pre *pegSnap, op pegOp) *[2]pegBy {
+	by := [2]pegBy{pre.By[0].clone(), pre.By[1].clone()}
+	hook := pre.Erc20On && pre.HookOn
+	for _, c := range op.Calls {
+		if c.T < 1 || c.T > 2 {
+			continue
+		}
+		q := &by[c.T-1]
+		cx := pegAmt(c.X)
+		if q.Tok[pScript] == nil || q.Tok[pM] == nil || q.Total == nil || q.Tok[pScript].Cmp(cx) < 0 {
+			continue
+		}
+		subFrom(&q.Tok[pScript], cx)
+		if hook && cx.Sign() > 0 {
+			addTo(&q.Coin[pScript], cx)
+			if c.T == 1 {
+				subFrom(&q.Coin[pM], cx)
+				subFrom(&q.Total, cx)
+			} else {
+				addTo(&q.Supply, cx)
+				addTo(&q.Tok[pM], cx)
+			}
+		} else {
+			addTo(&q.Tok[pM], cx)
+		}
+	}
+	return &by
+}
+
 // pegClass: known-finding classes as predicates on the input's shape.
 func pegClass(p *pegPair, op pegOp, tr *pegTrack) string {
 	if p.OwnerMod {
+		return ""
+	}
+	if op.Op == "batch" {
+		// K7 through a contract: the same tokens called by the script contract
+		for _, c := range op.Calls {
+			if c.T != 0 {
+				continue
+			}
+			if p.Kind == "fakelog" || (p.Kind == "cham" && c.To == pM && tr.mode == chFake) {
+				return "erc20:external-token-fake-transfer-log"
+			}
+		}
 		return ""
 	}
 	if op.Op == "eth" {
@@ -1175,17 +1387,36 @@ func pegRunCase(id string, in pegInput) Case {
 			switch op.Op {
 			case "cc", "ce", "send", "recv", "ack", "timeout":
 				nOK++
-			case "eth":
+			case "eth", "batch":
 				if post.Supply.Cmp(pre.Supply) != 0 || !bigEq(post.Coin[pM], pre.Coin[pM]) { // the hook converted
 					nOK++
 					tags["hook-conversion"] = true
+					if op.Op == "batch" {
+						own, foreign := 0, 0
+						for _, c := range op.Calls {
+							if c.T != 0 {
+								foreign++
+							} else if c.To == pM && pegAmt(c.X).Sign() > 0 {
+								own++
+							}
+						}
+						if own >= 2 {
+							tags["hook-conversion:several-logs-one-tx"] = true
+						}
+						if own >= 1 && foreign >= 1 && post.Others != pre.Others {
+							tags["hook-conversion:two-pairs-one-tx"] = true
+						}
+					}
 				}
 			}
 		}
-		if oracleMsg == "" {
+		// the first failure counts; a failure inside a known-finding class does not hide a later one outside it
+		if oracleMsg == "" || class != "" {
 			if m := pegOracle(p, op, res, &pre, &post, tr); m != "" {
-				oracleMsg = fmt.Sprintf("step %d (%s on a %s pair): %s", i, name, in.Kind, m)
-				class = pegClass(p, op, tr)
+				if cl := pegClass(p, op, tr); oracleMsg == "" || cl == "" {
+					oracleMsg = fmt.Sprintf("step %d (%s on a %s pair): %s", i, name, in.Kind, m)
+					class = cl
+				}
 			}
 		}
 		tr.update(p, op, res)
@@ -1251,7 +1482,7 @@ func pegGen(r *Rng, nops int) pegInput {
 	holders := []int{pH1, pH2, pH3}
 	anyActor := func() int {
 		if r.Chance(12) {
-			return []int{pM, pThief, pZero, pDeployer}[r.Intn(4)]
+			return []int{pM, pThief, pZero, pDeployer, pScript}[r.Intn(5)]
 		}
 		return holders[r.Intn(3)]
 	}
@@ -1281,7 +1512,111 @@ func pegGen(r *Rng, nops int) pegInput {
 			tok[h].Add(tok[h], v)
 		}
 	}
+	// rough shadow update, assuming success whenever the standard semantics would succeed
 	enabled, on, hook, mode := true, true, true, 0
+	shadow := func(op pegOp) {
+		x := pegAmt(op.X)
+		conv := enabled && on
+		switch op.Op {
+		case "cc":
+			if conv && x.Sign() > 0 && x.Cmp(coin[op.A]) <= 0 && op.B != pM && op.B != pZero {
+				coin[op.A].Sub(coin[op.A], x)
+				tok[op.B].Add(tok[op.B], x)
+			}
+		case "ce":
+			if conv && x.Sign() > 0 && x.Cmp(tok[op.A]) <= 0 && op.B != pM {
+				tok[op.A].Sub(tok[op.A], x)
+				coin[op.B].Add(coin[op.B], x)
+			}
+		case "eth":
+			if op.Call == "transfer" && x.Cmp(tok[op.A]) <= 0 && op.B != pZero {
+				tok[op.A].Sub(tok[op.A], x)
+				if op.B == pM && conv && hook {
+					coin[op.A].Add(coin[op.A], x)
+				} else {
+					tok[op.B].Add(tok[op.B], x)
+				}
+			}
+			if op.Call == "burn" && x.Cmp(tok[op.A]) <= 0 {
+				tok[op.A].Sub(tok[op.A], x)
+			}
+			if op.Call == "mint" && !ownerMod && op.B != pZero {
+				tok[op.B].Add(tok[op.B], x)
+			}
+		case "send":
+			if x.Sign() > 0 && op.B != pM && op.A != op.B {
+				if conv {
+					av := new(big.Int).Add(coin[op.A], tok[op.A])
+					if x.Cmp(av) <= 0 {
+						tok[op.A] = av.Sub(av, x)
+						coin[op.A] = big.NewInt(0)
+						tok[op.B].Add(tok[op.B], x)
+					}
+				} else if x.Cmp(coin[op.A]) <= 0 {
+					coin[op.A].Sub(coin[op.A], x)
+					coin[op.B].Add(coin[op.B], x)
+				}
+			}
+		case "batch":
+			// all or nothing: on copies
+			t7, c7 := new(big.Int).Set(tok[pScript]), new(big.Int).Set(coin[pScript])
+			var credit [pegNA]*big.Int
+			okAll := true
+			for _, c := range op.Calls {
+				if c.T != 0 {
+					continue
+				}
+				cx := pegAmt(c.X)
+				if c.To == pZero || cx.Cmp(t7) > 0 {
+					if !c.Catch {
+						okAll = false
+					}
+					continue
+				}
+				t7.Sub(t7, cx)
+				if c.To == pM && conv && hook {
+					c7.Add(c7, cx)
+				} else if c.To == pScript {
+					t7.Add(t7, cx)
+				} else {
+					if credit[c.To] == nil {
+						credit[c.To] = big.NewInt(0)
+					}
+					credit[c.To].Add(credit[c.To], cx)
+				}
+			}
+			if okAll {
+				tok[pScript], coin[pScript] = t7, c7
+				for a, d := range credit {
+					if d != nil {
+						tok[a].Add(tok[a], d)
+					}
+				}
+			}
+		case "fund":
+			coin[op.A].Add(coin[op.A], x)
+		case "rawsend":
+			if x.Sign() > 0 && x.Cmp(coin[op.A]) <= 0 {
+				coin[op.A].Sub(coin[op.A], x)
+				coin[op.B].Add(coin[op.B], x)
+			}
+		case "recv", "ack", "timeout":
+			if x.Sign() > 0 && !(op.Op == "ack" && op.S) && (op.F || x.Cmp(coin[op.A]) <= 0) {
+				if !op.F {
+					coin[op.A].Sub(coin[op.A], x)
+				}
+				if conv {
+					tok[op.B].Add(tok[op.B], x)
+					if op.Op == "recv" {
+						tok[op.B].Add(tok[op.B], coin[op.B])
+						coin[op.B] = big.NewInt(0)
+					}
+				} else {
+					coin[op.B].Add(coin[op.B], x)
+				}
+			}
+		}
+	}
 	for len(in.Ops) < nops {
 		a, bb := holders[r.Intn(3)], anyActor()
 		var op pegOp
@@ -1299,7 +1634,7 @@ func pegGen(r *Rng, nops int) pegInput {
 			}
 			return holders[r.Intn(3)]
 		}
-		k := r.Intn(100)
+		k := r.Intn(106)
 		switch {
 		case k < 16, k >= 73 && k < 93:
 			a = rich(&coin)
@@ -1310,6 +1645,67 @@ func pegGen(r *Rng, nops int) pegInput {
 			bb = a
 		}
 		switch {
+		case k >= 100: // a contract makes several transfers in ONE transaction
+			if tok[pScript].Sign() == 0 || r.Chance(25) {
+				// the contract first gets tokens: an ordinary transfer, or a conversion with the contract as receiver
+				var f pegOp
+				if h := rich(&coin); ownerMod && coin[h].Sign() > 0 && r.Bool() {
+					f = pegOp{Op: "cc", A: h, B: pScript, X: pegGenAmount(r, coin[h]).String()}
+				} else if coin[pScript].Sign() > 0 && r.Chance(40) {
+					f = pegOp{Op: "cc", A: pScript, B: pScript, X: pegGenAmount(r, coin[pScript]).String()} // recycles what the hook paid out
+				} else {
+					h = rich(&tok)
+					f = pegOp{Op: "eth", A: h, B: pScript, Call: "transfer", X: pegGenAmount(r, tok[h]).String()}
+				}
+				if pegAmt(f.X).Cmp(maxU256) > 0 {
+					f.X = maxU256.String()
+				}
+				push(f)
+				shadow(f)
+			}
+			n := 2 + r.Intn(3)
+			if r.Chance(10) {
+				n = 1
+			}
+			left := new(big.Int).Set(tok[pScript])
+			var calls []pegCall
+			for i := 0; i < n; i++ {
+				switch j := r.Intn(100); {
+				case j < 22: // the token of another registered pair
+					calls = append(calls, pegCall{T: 1 + r.Intn(2), X: fmt.Sprint(r.Intn(2 * pegByScript / 3))})
+				case j < 32: // to somebody else
+					v := pegGenAmount(r, left)
+					calls = append(calls, pegCall{To: anyActor(), X: v.String(), Catch: r.Chance(30)})
+					if v.Cmp(left) <= 0 {
+						left.Sub(left, v)
+					}
+				default: // to the module address: a part of what is left, rarely more than that
+					v := big.NewInt(0)
+					switch {
+					case left.Sign() > 0 && r.Chance(85):
+						v = r.Below(left)
+						if i < n-1 && r.Chance(70) {
+							v.Rsh(v, uint(1+r.Intn(3)))
+						}
+						v.Add(v, big.NewInt(1))
+					case r.Chance(50):
+						v = pegGenAmount(r, left)
+					default:
+						v = big.NewInt(int64(r.Intn(3)))
+					}
+					c := pegCall{To: pM, X: v.String(), Catch: r.Chance(20)}
+					if v.Cmp(left) > 0 {
+						c.Catch = r.Chance(85)
+					} else {
+						left.Sub(left, v)
+					}
+					calls = append(calls, c)
+				}
+				if c := &calls[len(calls)-1]; pegAmt(c.X).Cmp(maxU256) > 0 {
+					c.X = maxU256.String()
+				}
+			}
+			op = pegOp{Op: "batch", A: a, Calls: calls}
 		case k < 16: // coin -> token by message
 			op = pegOp{Op: "cc", A: a, B: bb, X: pegGenAmount(r, coin[a]).String()}
 		case k < 32: // token -> coin by message
@@ -1380,72 +1776,7 @@ func pegGen(r *Rng, nops int) pegInput {
 			op.X = maxU256.String()
 		}
 		push(op)
-		// rough shadow update, assuming success whenever the standard semantics would succeed
-		x := pegAmt(op.X)
-		conv := enabled && on
-		switch op.Op {
-		case "cc":
-			if conv && x.Sign() > 0 && x.Cmp(coin[op.A]) <= 0 && op.B != pM && op.B != pZero {
-				coin[op.A].Sub(coin[op.A], x)
-				tok[op.B].Add(tok[op.B], x)
-			}
-		case "ce":
-			if conv && x.Sign() > 0 && x.Cmp(tok[op.A]) <= 0 && op.B != pM {
-				tok[op.A].Sub(tok[op.A], x)
-				coin[op.B].Add(coin[op.B], x)
-			}
-		case "eth":
-			if op.Call == "transfer" && x.Cmp(tok[op.A]) <= 0 && op.B != pZero {
-				tok[op.A].Sub(tok[op.A], x)
-				if op.B == pM && conv && hook {
-					coin[op.A].Add(coin[op.A], x)
-				} else {
-					tok[op.B].Add(tok[op.B], x)
-				}
-			}
-			if op.Call == "burn" && x.Cmp(tok[op.A]) <= 0 {
-				tok[op.A].Sub(tok[op.A], x)
-			}
-			if op.Call == "mint" && !ownerMod && op.B != pZero {
-				tok[op.B].Add(tok[op.B], x)
-			}
-		case "send":
-			if x.Sign() > 0 && op.B != pM && op.A != op.B {
-				if conv {
-					av := new(big.Int).Add(coin[op.A], tok[op.A])
-					if x.Cmp(av) <= 0 {
-						tok[op.A] = av.Sub(av, x)
-						coin[op.A] = big.NewInt(0)
-						tok[op.B].Add(tok[op.B], x)
-					}
-				} else if x.Cmp(coin[op.A]) <= 0 {
-					coin[op.A].Sub(coin[op.A], x)
-					coin[op.B].Add(coin[op.B], x)
-				}
-			}
-		case "fund":
-			coin[op.A].Add(coin[op.A], x)
-		case "rawsend":
-			if x.Sign() > 0 && x.Cmp(coin[op.A]) <= 0 {
-				coin[op.A].Sub(coin[op.A], x)
-				coin[op.B].Add(coin[op.B], x)
-			}
-		case "recv", "ack", "timeout":
-			if x.Sign() > 0 && !(op.Op == "ack" && op.S) && (op.F || x.Cmp(coin[op.A]) <= 0) {
-				if !op.F {
-					coin[op.A].Sub(coin[op.A], x)
-				}
-				if conv {
-					tok[op.B].Add(tok[op.B], x)
-					if op.Op == "recv" {
-						tok[op.B].Add(tok[op.B], coin[op.B])
-						coin[op.B] = big.NewInt(0)
-					}
-				} else {
-					coin[op.B].Add(coin[op.B], x)
-				}
-			}
-		}
+		shadow(op)
 	}
 	return in
 }
